@@ -1,10 +1,12 @@
 #![allow(dead_code, unused_imports)]
+mod alloc;
 mod ep;
 mod model;
 mod rng;
 mod runner;
 mod scen;
 mod solo;
+mod twin;
 mod wire;
 
 fn main() {
